@@ -1,6 +1,6 @@
 (* C11 property theorems only. *)
 From Coq Require Import List NArith Bool Arith.
-From Verif Require Import C11.Model_C11 C11.Proofs_C11 C11.Proofs1_C11 C11.ModelS_C11 C11.ProofsS_C11 C11.ModelP_C11 C11.ProofsP_C11 C11.ProofsP2_C11.
+From Verif Require Import C11.Model_C11 C11.Proofs_C11 C11.Proofs1_C11 C11.ModelS_C11 C11.ProofsS_C11 C11.ModelP_C11 C11.ProofsP_C11 C11.ProofsP2_C11 C11.ModelE_C11 C11.ProofsE_C11.
 Import ListNotations.
 
 (* For every configuration, every behaviour of the operations, every number of workers and EVERY
@@ -166,3 +166,16 @@ Proof.
   destruct producer_status_needs_contract as (H1 & H2 & H3). split; [exact H1|]. rewrite H2, H3. intros Hc. inversion Hc.
 Qed.
 Print Assumptions C11_stateful_status_covers_needs_contract.
+
+(* ---- the plan level with interruptions that escape a phase (ModelE_C11: ExecutionPlan.execute) ----
+   Whatever the phases do - enabled or not, any number of events, any status, stop flag or failure limit set, a
+   KeyboardInterrupt escaping before or after the phase's own PhaseFinished - the run has one start first, one finish last,
+   and every phase that was announced is closed exactly once, in order.  Before the repair an interruption that escaped the
+   phase (Ctrl-C while the probing request is in flight) left the phase open. *)
+Theorem C11_plan_closed_under_interrupts : forall phases stop0, ewf (eplan true phases stop0) = true.
+Proof. exact eplan_wf. Qed.
+Print Assumptions C11_plan_closed_under_interrupts.
+
+Theorem C11_plan_before_fix_refuted : exists phases, ewf (eplan false phases false) = false.
+Proof. eexists. exact eplan_before_fix_open. Qed.
+Print Assumptions C11_plan_before_fix_refuted.
